@@ -974,6 +974,29 @@ def harvest(ctx, rep, ck):
                 rep.problem("evaluated", f"{kind}: an evaluated tree is malformed, uses a foreign symbol or is deeper than max_level={max_level}",
                             dict(kind=kind, kw=kw, seed=seed, uniset=uspec, tree=e, max_level=max_level, init_level=init_level),
                             "evaluated-tree", True, e, None, "C08_closed")
+        wrong_ml = sorted({r["ml"] for r in records if r["ml"] != max_level})
+        if wrong_ml:
+            # the bound handed to the operators is not the configured one: search the same optimizer for a generation that holds a deeper tree
+            found = None
+            for s2 in range(6):
+                ev2 = []
+
+                def fit2(trees, ev2=ev2):
+                    ev2.extend(L_.enc(t) for t in trees)
+                    return np.array([float(len(t)) for t in trees], dtype=np.float64)      # rewards growth
+                o2 = cls(fit2, uni, iters=15, pop_size=30, max_level=max_level, init_level=init_level, random_state=seed + s2)
+                try:
+                    o2.fit()
+                except Exception:   # noqa: BLE001
+                    pass
+                deep = [e for e in ev2 if (parse(e[0], e[1]) is None or depth(parse(e[0], e[1])) > max_level)]
+                if deep:
+                    found = dict(seed=seed + s2, tree=deep[0], depth=None if parse(deep[0][0], deep[0][1]) is None else depth(parse(deep[0][0], deep[0][1])))
+                    break
+            rep.problem("evaluated", f"{kind}: the optimizer hands max_level={wrong_ml} to its crossover / mutation operators although max_level={max_level} "
+                        "was configured" + (f"; with default pools, iters=15, pop_size=30, random_state={found['seed']} a tree of depth {found['depth']} is evaluated" if found else ""),
+                        dict(kind=kind, kw=kw, seed=seed, uniset=uspec, max_level=max_level, init_level=init_level, deeper_tree=found),
+                        "max-level-not-forwarded", found is not None, wrong_ml, max_level, "C08_closed")
         for r in records:
             try:
                 script = to_script(r["log"])
